@@ -215,14 +215,14 @@ def parse_lit(ts):
     if k == "u" and len(ts) == 2:
         u = int(ts[1])
         return ("i", u) if u < 2 ** 31 else ("d", u, 0)
-    if k == "l" and len(ts) == 2:
-        return ("d", int(ts[1]), 0)
+    if k == "l" and len(ts) == 2:          # Long: (double)x, rounded to nearest-even beyond 2^53
+        return ("d",) + norm_dy(int(float(int(ts[1]))), 0)
     if k == "L" and len(ts) == 2:          # C++ long: INT inside the int range, NUMBER outside (6c0507b)
         x = int(ts[1])
-        return ("i", x) if -2 ** 31 <= x < 2 ** 31 else ("d", x, 0)
+        return ("i", x) if -2 ** 31 <= x < 2 ** 31 else ("d",) + norm_dy(int(float(x)), 0)
     if k == "UL" and len(ts) == 2:
         x = int(ts[1])
-        return ("i", x) if x < 2 ** 31 else ("d", x, 0)
+        return ("i", x) if x < 2 ** 31 else ("d",) + norm_dy(int(float(x)), 0)
     if k == "Q" and len(ts) == 2:          # ULong: always NUMBER, (double)x (c047585 for the assignment)
         return ("d",) + norm_dy(int(float(int(ts[1]))), 0)
     if k in ("d", "f") and len(ts) == 3:
@@ -907,6 +907,21 @@ def rfloat(rng):
     return (rng.randrange(-2000, 2000), rng.randrange(0, 5))
 
 
+def rlong(rng):
+    """Long / long values over the whole 64-bit range: small, around +-2^53 (where (double)x starts to round), ties, +-2^63"""
+    r = rng.random()
+    if r < 0.3:
+        return rng.choice([0, -1, 5, 2 ** 31 - 1, 2 ** 31, -2 ** 31, -2 ** 31 - 1, 2 ** 32 + 5, 1099511627781, -1099511627781, rng.choice(INTS)])
+    if r < 0.6:
+        return rng.choice([1, -1]) * rng.choice([2 ** 53 - 1, 2 ** 53, 2 ** 53 + 1, 2 ** 53 + 2, 2 ** 53 + 3, 2 ** 54 + 2, 2 ** 54 + 6, 2 ** 62, 2 ** 63 - 1,
+                                                 2 ** 63 - 512, 2 ** 63 - 513, 2 ** 63 - 1024, 9007199254740993, 123456789012345678])
+    if r < 0.65:
+        return -2 ** 63
+    if r < 0.85:
+        return rng.randrange(-2 ** 63, 2 ** 63)
+    return rng.randrange(-2 ** 53 + 1, 2 ** 53)
+
+
 def rulong(rng):
     """ULong values: small, around 2^53, and m * 2^e up to 2^64 (a double holds them exactly), plus a few that (double) rounds"""
     r = rng.random()
@@ -928,13 +943,11 @@ def rlit(rng, kinds="iuldfbscLUQ"):
     if k == "u":
         return "u %d" % rng.choice([0, 1, 7, 2 ** 31 - 1, 2 ** 31, 2 ** 31 + 1, 2 ** 32 - 1, rng.randrange(0, 2 ** 32)])
     if k == "l":
-        return "l %d" % rng.choice([0, -1, 2 ** 31, -2 ** 31 - 1, 2 ** 53 - 1, -2 ** 53 + 1, rng.randrange(-2 ** 53 + 1, 2 ** 53), rng.choice(INTS)])
+        return "l %d" % rlong(rng)
     if k == "L":
-        return "L %d" % rng.choice([0, -1, 5, 2 ** 31 - 1, 2 ** 31, -2 ** 31, -2 ** 31 - 1, 2 ** 32 + 5, 1099511627781, -1099511627781,
-                                    2 ** 53 - 1, -2 ** 53 + 1, rng.randrange(-2 ** 53 + 1, 2 ** 53), rng.randrange(-2 ** 33, 2 ** 33)])
+        return "L %d" % (rlong(rng) if rng.random() < 0.7 else rng.randrange(-2 ** 33, 2 ** 33))
     if k == "U":
-        return "UL %d" % rng.choice([0, 7, 2 ** 31 - 1, 2 ** 31, 2 ** 32 - 1, 2 ** 32, 4294967303, 2 ** 53 - 1, rng.randrange(0, 2 ** 53),
-                                     rng.randrange(0, 2 ** 34)])
+        return "UL %d" % (rulong(rng) if rng.random() < 0.6 else rng.choice([0, 7, 2 ** 31 - 1, 2 ** 31, 2 ** 32 - 1, 2 ** 32, 4294967303, rng.randrange(0, 2 ** 34)]))
     if k == "Q":
         return "Q %d" % rulong(rng)
     if k == "d":
@@ -1297,8 +1310,11 @@ def lit_cases(rng, tier):
         if i >= 0:
             lits.append("u %d" % i)
     lits += ["u %d" % u for u in (2 ** 31 - 1, 2 ** 31, 2 ** 31 + 1, 2 ** 32 - 1)]
-    lits += ["L %d" % x for x in (0, -7, 2 ** 31 - 1, 2 ** 31, -2 ** 31, -2 ** 31 - 1, 1099511627781, -1099511627781, 2 ** 32 + 5, 2 ** 53 - 1)]
-    lits += ["UL %d" % x for x in (0, 7, 2 ** 31 - 1, 2 ** 31, 2 ** 32 - 1, 2 ** 32, 4294967303, 2 ** 53 - 1)]
+    big = [2 ** 53, 2 ** 53 + 1, 2 ** 53 + 2, 2 ** 53 + 3, 9007199254740993, 2 ** 54 + 2, 2 ** 54 + 6, 2 ** 62, 2 ** 63 - 1, 2 ** 63 - 512, 2 ** 63 - 513, 123456789012345678]
+    lits += ["L %d" % x for x in (0, -7, 2 ** 31 - 1, 2 ** 31, -2 ** 31, -2 ** 31 - 1, 1099511627781, -1099511627781, 2 ** 32 + 5, 2 ** 53 - 1, -2 ** 63)]
+    lits += ["L %d" % x for x in big] + ["L %d" % -x for x in big] + ["l %d" % x for x in big] + ["l %d" % -x for x in big] + ["l %d" % -2 ** 63]
+    lits += ["UL %d" % x for x in (0, 7, 2 ** 31 - 1, 2 ** 31, 2 ** 32 - 1, 2 ** 32, 4294967303, 2 ** 53 - 1, 2 ** 63, 2 ** 64 - 1, 2 ** 64 - 2048, 2 ** 64 - 1025)]
+    lits += ["UL %d" % x for x in big]
     lits += ["b 0", "b 1", "d 1 1", "d 3 2", "d -5 3", "f 1 1", "f 13421773 27", "d 1 60", "d 7 1074", "l 9007199254740991",
              "d 9007199254740991 0", "d -9007199254740991 10", "d 1 10", "d 1234567890123457 20"]
     for _ in range(40 if tier == "quick" else 400):
@@ -1685,10 +1701,13 @@ LEVEL_TEXT = (
     "Var(long)/Var(unsigned long), Var(Array<T>), Var(initializer_list<T>), Var(Dic<T>), Var::array({..}), typed and Var assignment with "
     "the source REFERENCE evaluated before the target path (as the C++ does), auto-creating operator[], <<, resize, removeAt, remove, "
     "clear, extend, clone, ==, toString): "
-    "(1) accessors_* (int with -2^31 <= i < 2^31, unsigned, Long and native long/unsigned long with |x| < 2^53, double, float, bool, "
-    "string): DEFINITIONAL restatements of the model's constructor/accessor definitions (type tag, value, unsigned >= 2^31 -> NUMBER, "
-    "long outside the int range -> NUMBER, inline strings exactly below 8 bytes) — they say what the model is, and are validated "
-    "against the library only by K (literal sweeps over every numeric boundary and string length); "
+    "(1) accessors_* (int, unsigned, Long and native long/unsigned long, double, float, bool, string): DEFINITIONAL restatements of the "
+    "model's constructor/accessor definitions (type tag, value, unsigned >= 2^31 -> NUMBER, long outside the int range -> NUMBER, inline "
+    "strings exactly below 8 bytes) — they say what the model is, and are validated against the library only by K (literal sweeps over "
+    "every numeric boundary and string length). accessors_long / accessors_native_long use their hypothesis |x| < 2^53: there the stored "
+    "NUMBER is exactly x; beyond it the model stores (double)x rounded to nearest-even (long_beyond_2_53_is_rounded, Dy.ofIntD) and only "
+    "K validates that rounding (Long / long / unsigned long / ULong literals over the whole range up to +-2^63 / 2^64, ties included); "
+    "the range hypothesis of accessors_int is a domain annotation (an int is 32 bits), not used by the proof; "
     "(2) eq_iff_content (+ eq_refl/eq_symm/eq_trans, numbers_compare_numerically, eq_float_int_exact): v == w is true exactly when both "
     "denote the same abstract tree (numbers by VALUE across INT/NUMBER/FLOAT — stored pairs are compared through their normal forms, so "
     "no normality hypothesis on stored numbers is needed —, strings by bytes across STRING/SSTRING, containers element-wise, NONE = NONE), "
@@ -1713,15 +1732,19 @@ LEVEL_TEXT = (
     "counted); the invariant holds; "
     "(6) clone_deep_partial: clone() only appends blocks, denotes the same tree, and denotes it in every later heap "
     "that keeps the appended blocks, whatever happens to everything the original reaches; "
-    "(7) rarely used overloads and boundary arguments: accessors_ulong / ulong_above_long_range (Var(ULong), v = (ULong)u and (ULong)v up to "
-    "2^64, no detour through Long), ctor_type_zero (Var(Var::INT|NUMBER|FLOAT|BOOL) is zero / false), string_key_on_array_is_index "
-    "(v[\"7\"] on an ARRAY takes exactly the auto-creating step v[7]; covered by history_safe like every other step), "
-    "removeAt_out_of_range_noop (every int pair outside 0 <= i < len, 0 < n <= len - i, n = INT_MAX included, changes nothing), "
-    "string_key_negative_on_array_is_self (a[\"-1\"] takes no step: an error that returns the Var itself), "
-    "assign_suffix_spec (p = *p + off, a const char* into the Var's own string, leaves exactly the suffix), assign_cstr_spec (p = *q + off "
-    "with q a string inside the array/object that p holds and releases, v = *v[0]: p denotes exactly that text), "
-    "assign_key_spec (p = k with const String& k the NAME of a property of the object p holds: p denotes exactly that name), "
-    "int_vs_float_literal_exact (typed numeric comparisons are evaluated on exact values); "
+    "(7) rarely used overloads and boundary arguments. DEFINITIONAL (unfoldings of the model's own definitions, proved by simp/rfl/decide; "
+    "they document what the model does and are validated against the library only by K): accessors_ulong / ulong_above_long_range "
+    "(Var(ULong), v = (ULong)u and (ULong)v up to 2^64), ctor_type_zero (Var(Var::INT|NUMBER|FLOAT|BOOL) is zero / false), "
+    "string_key_on_array_is_index (v[\"7\"] on an ARRAY is the step v[7]), string_key_negative_on_array_is_self (a[\"-1\"] takes no step), "
+    "removeAt_out_of_range_noop (over UNBOUNDED integers: it cannot see the int overflow of 17b939b, which only K with "
+    "-fsanitize=signed-integer-overflow sees), const_index_beyond_length_is_none, int_vs_float_literal_exact (ONE witness, "
+    "numOf 16777217 != numOf 16777216.0f; the typed overloads v == x are not in the model at all: the driver evaluates them as "
+    "numOf v == some d, K-only). What IS proved about these steps: they are covered by history_safe like every other step. "
+    "VALUE-LEVEL corollaries of assign_lit_spec: assign_suffix_spec (p = *p + off), assign_cstr_spec (p = *q + off, v = *v[0]), "
+    "assign_key_spec (p = name of a property of q): the model fetches the byte list by value before it does anything (strings are "
+    "immutable values, their heap storage is not modelled), so these theorems would hold for the pre-fix statement order too; the "
+    "memcpy overlap (0cc196d) and the read after release (7dd07aa, 782f6e9) are checked ONLY by K under ASan (setsub / setcs / setkey "
+    "events counted in the evidence); "
     "(8) var_shared_growth_counterexample / autocreate_invalidates_source_counterexample: without the guards, Var c = a; a << ... leaves "
     "c with a released block, and v[5] = v[0] reads the source through a reference into a block the target path has moved (the two "
     "known findings). "
@@ -1738,6 +1761,18 @@ LEVEL_NOTE = (
     "operands have the required kind, int indexes/roots in range (a negative int index is refused; a string key applied to a scalar or "
     "a negative one applied to an array is NOT a hypothesis any more: the library reports an error and returns the Var itself, modelled and "
     "executed as such). "
+    "WEAK POINT (second audit, not repaired): the model's srcVal turns ANY failing read of the source reference after the target path "
+    "(uaf, oob) into srcMoved, which counts as Excluded; that the invalidates guard makes this branch unreachable, and that an object "
+    "insertion cannot silently shift the source to another property, is NOT proved (missing frame lemma: Inv s [] -> cloc s q = ok (some l) "
+    "-> resolveMut true (some l) s (.slot p.root) p.steps = (s1, ok t) -> readLoc s1 l = readLoc s l). So history_never_touches_freed / "
+    "history_in_domain / assign_spec cannot detect an insufficient guard by themselves; K can: the harness predicts the refusal with "
+    "independent code from the public API, so a source moved without a refusal on one side shows as a divergence or an ASan report. "
+    "The repaired Var::free() (6b7c321, 652bc0f: ownsNested / detachNested / pending list) has NO transcription in the model (release "
+    "was always an abstract work list); it is checked by every destruction in the generated histories (depth <= 64) and by extra() at "
+    "depth 10^5 / 10^6 with fixed expected outputs. "
+    "setkey: the harness re-resolves q after the target path and takes the key reference only then, so for setkey the source-first "
+    "order is enforced by the guard's prediction and not exercised by the executed C++ (it reproduces 782f6e9, not "
+    "autocreate-invalidates-source). "
     "NOT MODELLED: the heap storage of a STRING (Array<char>: NEW_STRINGC/resize/DEL_STRING/dup) — the model keeps the bytes inline "
     "in the value, never shared; its allocation, in-place reuse, release and leak-freedom are checked only by K under ASan/LSan. "
     "Constructors NOT covered: Var{{\"k\", v}, ..} (initializer_list<Obj>), nested initializer lists, Array<T>/Dic<T> for T other than "
@@ -1780,7 +1815,8 @@ TRUSTED = ["harness/c04.cpp is compiled with -fsanitize=signed-integer-overflow 
            "block address / index / key order of the source reference, cycle prediction by a walk over "
            "array().data()/object().kv().data() block addresses; all are mirrored by the model and by the python simulation"]
 ASSUMPTIONS = [
-    "a finite double is the exact dyadic rational m/2^e (AslModel.Var.Dy); int->double and Long->double (|x| < 2^53) are exact; "
+    "a finite double is the exact dyadic rational m/2^e (AslModel.Var.Dy); int->double is exact, Long/long/ULong->double is exact for "
+    "|x| < 2^53 and round-to-nearest-even beyond (AslModel.Var.Dy.ofInt64 / ofIntD, validated by K over the whole 64-bit range); "
     "NaN, infinities and -0 are outside the model and the generator",
     "glibc snprintf %.15g / %.7g / %i print the correctly rounded (ties-to-even) decimal of the exact value (AslModel.Var.fmtG, intDigits); "
     "exercised by K on every generated number and checked against python's % operator",
